@@ -24,6 +24,7 @@ func init() {
 			"(R2) the error result of every call in the transmit family (the OperationTransmitter callback, Engine.transmitBlock/transmitData/Deltify, the Deltify closures, Receiver.Receive, Encoder.Encode, Decoder.Decode) is used, never discarded; " +
 			"(R3) Transmit's callback records Receiver.Receive's error in the captured variable and returns it, and after Deltify every path that continues or returns nil has tested that variable to be nil. " +
 			"(R2 addition) the error of a transmit-family call does not flow untested into a loop-carried variable (an `err = f()` in a loop with the test after the loop forgets earlier failures); " +
+			"(R4) a deferred function in rsync/remote assigns a named error result only under `result == nil` or by wrapping the old value — an unconditional `err = f()` in a defer would replace a reported failure; " +
 			"Not decided: the second clause of the property (receiver obtained exactly the target data) — arithmetic over runtime data.",
 		Assumptions: []string{"errors are values of the predeclared type error; an error compared against nil is non-nil on the other edge"},
 		Run:         runC20,
@@ -44,6 +45,7 @@ var c20AllowNilUnderErr = map[string]string{
 }
 
 func runC20(c *eng.Ctx) {
+	c20DeferredResult(c)
 	fns := c.P.ModuleFuncs(rsyncPkg, remotePkg)
 	if len(fns) < 40 {
 		c.Problem("R1", "only %d functions found in rsync/remote packages", len(fns))
